@@ -13,7 +13,7 @@ PID = 'C17'
 META = {
     'technique': 'Coq proof (invariants over all histories of an executable ResponseFuture model) + per-step correspondence with the real class on exhaustive plan x pool-state scopes',
     'level_text': 'C17_order / C17_order_history / C17_no_repeat / C17_other_sends_are_tasks / C17_retry_task_needs_decision / C17_exhaustion_lists_every_host / '
-                  'C17_exhaustion / C17_errors_only_plan_hosts / C17_target_only proved for every plan, pool-state assignment, retry-policy '
+                  'C17_exhaustion / C17_errors_only_plan_hosts / C17_next_page_fresh_plan / C17_order_every_page / C17_replan_master_nodup / C17_target_only proved for every plan, pool-state assignment, retry-policy '
                   'oracle and history (responses, executor runs, speculative firings, pool changes) of the FutB model; model tied to '
                   'cluster.py by step-by-step differential execution of the real ResponseFuture.',
     'level_note': 'Trusted: Coq kernel, the fake session/pool/connection/timer harness, py2coq for uses_keyspace_flag. Not modelled: '
@@ -32,6 +32,8 @@ def gen(ctx):
 def base(n, plan, pools, **kw):
     sc = {'n': n, 'plan': list(plan), 'target': None, 'pools': list(pools), 'idem': False, 'spec': [False, 0], 'cl': 1,
           'pv': 4, 'ks': None, 'ps': None, 'known': [], 'script': [[3, None]] * 12, 'ops': []}
+    sc['nids'] = [1, 4, 2][(sum(pools) + len(plan)) % 3]
+    sc['metrics'] = bool(sum(pools) % 2)
     sc.update(kw)
     return sc
 
@@ -96,6 +98,77 @@ def spec_races(ctx):
     return items
 
 
+def paged(ctx):
+    """paged results: first page answered with a paging state, then one or two further page fetches (each with its own plan
+    from the load balancer, or the explicit target again) x pool states x what the hosts answer on the later page"""
+    items = []
+    for n in (1, 2, 3):
+        for target in [None] + list(range(n)):
+            for st in (6, 0, 2, 3):
+                for later in ([0], [3, 3, 0], [8]):
+                    pools = [6] * n
+                    sc = base(n, list(range(n)), pools, target=target, script=[[3, None]] * 8)
+                    run = H.Run(sc)
+                    orc = K.Oracle(sc, run, PID)
+                    obs = []
+                    plan2 = list(reversed(range(n)))
+                    first2 = target if target is not None else plan2[0]
+                    ops = [['start'], ['resp', 0, [8]], ['pool', first2, st], ['page', plan2]]
+                    for op in ops:
+                        sc['ops'].append(op)
+                        obs.append(orc.step(len(sc['ops']) - 1, op))
+                    tag = 30
+                    for k in range(10):
+                        if run.env.queue:
+                            op = ['run', 0]
+                        elif run.open_attempts():
+                            r = list(later)
+                            if r[0] == 3:
+                                tag += 1
+                                r[2] = tag
+                            op = ['resp', run.open_attempts()[0], r]
+                        elif run.future._paging_state and run.completed() and k < 6 and later == [8]:
+                            op = ['page', list(range(n))]
+                            later = [0]
+                        else:
+                            break
+                        sc['ops'].append(op)
+                        obs.append(orc.step(len(sc['ops']) - 1, op))
+                    items.append((sc, obs, orc.bad, {'nontrivial': True, 'sample': len(items) == 17}))
+    return items
+
+
+def analytics(ctx):
+    """DSE graph analytics requests: plan re-made by Session._on_analytics_master_result (master first), every master / failed
+    lookup x plan x pool state of the master, driven to exhaustion with RETRY_NEXT_HOST"""
+    items = []
+    for n in (2, 3):
+        for plan in itertools.permutations(range(n)):
+            for master in [None] + list(range(n)):
+                for mst in (6, 0, 3):
+                    pools = [6] * n
+                    if master is not None:
+                        pools[master] = mst
+                    elif mst != 6:
+                        continue
+                    sc = base(n, plan, pools, analytics={'master': master}, script=[[3, None]] * 8)
+                    obs, bad, run = K.drive_sequential(sc, PID, lambda i, prep, tag: [3, 3, tag])
+                    items.append((sc, obs, bad, {'nontrivial': True, 'sample': len(items) == 11}))
+    return items
+
+
+def reprepares(ctx):
+    """UNPREPARED on the first host, for every size of the stream-id deque (with 1 the PREPARE goes out on stream id 0)"""
+    items = []
+    for nids in (1, 2, 3, 4):
+        for pr in ([2, 7], [2, 8], [3, 7, 21], [3, 3, 21]):
+            for pools in ([6, 6, 6], [6, 2, 6]):
+                sc = base(3, [0, 1, 2], pools, ps=[7, 3, None], nids=nids, script=[[3, None]] * 6)
+                obs, bad, run = K.drive_sequential(sc, PID, lambda i, prep, tag: (pr if prep else ([4, 7, tag] if i == 0 else [3, 3, tag])), max_ops=14)
+                items.append((sc, obs, bad, {'nontrivial': True}))
+    return items
+
+
 def randoms(ctx, count):
     items = []
     for i in range(count):
@@ -124,6 +197,15 @@ def run(ctx):
     tg = targeted(ctx)
     items += tg
     ctx.count('source', 'explicit_target', len(tg))
+    pg = paged(ctx)
+    items += pg
+    ctx.count('source', 'paged_results', len(pg))
+    an = analytics(ctx)
+    items += an
+    ctx.count('source', 'graph_analytics_master_plan', len(an))
+    rp = reprepares(ctx)
+    items += rp
+    ctx.count('source', 'reprepare_stream_ids', len(rp))
     sr = spec_races(ctx)
     items += sr
     ctx.count('source', 'speculative_timer_inside_first_query', len(sr))
